@@ -108,19 +108,19 @@ func runSelftest(args []string) int {
 		// ---- parser world
 		pr := newRng(seed, hashLabel("selftest-parser"))
 		var specs []*genParser
-		for i := 0; i < 10; i++ {
+		for i := 0; i < 80; i++ {
 			specs = append(specs, drawSpec(pr, fmt.Sprintf("p%03d", i), specBias{nullableLoops: 15, leftRec: 20, states: 70, preds: 60, actions: 85, throws: 25, optimized: 35, display: 20, unicode: 40, stateBias: true, lrDirect: true}))
 		}
 		pw := buildParserWorld(sc, pigeon, specs, false)
 		var reqs []*parsersim.Request
-		small := pParams{grammars: 10, inputs: 2, optSets: 1, enumMax: 60, extra: 2}
+		small := pParams{grammars: 80, inputs: 1, optSets: 1, enumMax: 40, extra: 2}
 		for _, gp := range pw.parsers {
 			reqs = append(reqs, propC16.mkReqs(pr, gp, small)...)
 			reqs = append(reqs, propC11.mkReqs(pr, gp, small)...)
 			if propC05.accept(gp) {
 				reqs = append(reqs, propC05.mkReqs(pr, gp, small)...)
 			}
-			reqs = append(reqs, c18Prop(false).mkReqs(pr, gp, pParams{extra: 3})...)
+			reqs = append(reqs, c18Prop(false).mkReqs(pr, gp, pParams{extra: 1})...)
 		}
 		var pref []string
 		for ci, cf := range confs {
